@@ -38,7 +38,8 @@ pub fn theta_hash_str(item: &str, seed: u64) -> u64 {
 }
 
 fn th0_of(p: f32) -> u64 {
-    if p < 1.0 { (MAX_THETA as f64 * p as f64) as u64 } else { MAX_THETA }
+    // (a positive probability means a positive theta: the smallest one when p * 2^63 truncates to 0)
+    if p < 1.0 { ((MAX_THETA as f64 * p as f64) as u64).max(1) } else { MAX_THETA }
 }
 
 struct Ranks(BTreeMap<u64, i64>);
@@ -620,6 +621,11 @@ pub fn record(args: &Args) {
             let rf = rng.below(4) as u8;
             let ops = public_boundary_ops(&mut rng, lgk, rf, 9001);
             run(&mut out, "theta-public-boundary", lgk, rf, 1.0, 9001, &ops);
+        }
+        // probabilities so small that p * 2^63 truncates to 0 (theta starts at the smallest positive value)
+        for &p in &[1e-20f32, 1e-30] {
+            let ops = vec![Op::Compact(true), Op::Item(1), Op::Item(2), Op::Compact(true), Op::Compact(false), Op::Trim, Op::Item(3), Op::Reset, Op::Compact(true)];
+            run(&mut out, "theta-sampling-tiny", 5, 3, p, 9001, &ops);
         }
         for &p in &[0.5f32, 0.01, 0.9] {
             let ops = screened_ops(&mut rng, p);
